@@ -3,10 +3,30 @@ VARIANT = "san"
 RULE = "see stats"
 TIMEOUT = {"quick": 900, "search": 1800, "thorough": 3 * 3600}
 PARTIAL = [
-    "single-precision arithmetic: the theorems are over Rat; inside spreadCells a float coordinate may round onto the "
-    "bin edge (still inside the closed bounding box, which is what the statement asks). Supported by the correspondence "
-    "stream: exact equality of rationals where float arithmetic is exact, |float - rat| <= 2^-18(|lo|+|hi|+1) otherwise "
-    "(derived bound, bins of <= 29 cells), and containment checked on the float result itself",
+    "single-precision arithmetic of spreadCells/spreadCoordX/Y: modelled bit for bit (Model/SpreadF.lean: one binary32 "
+    "round-to-nearest-even per C++ operator, x86-64 SSE, no FMA contraction — neither /repo's build files nor the harness pass "
+    "-march/-mfma) and compared EXACTLY with the real spreadCoordX/Y on every run (stream spreadf: limits up to 2^22, demands up "
+    "to INT_MAX, up to 301 cells per bin, huge+tiny demand mixes). In binary32 a coordinate is NOT always inside the closed "
+    "bin: spreadF_can_leave_bin (one ulp outside, both sides, proved by kernel evaluation). Proved for all inputs: "
+    "spreadF_enclosure_partial — every positive-demand cell is within epsF(d,lo,hi) = d(hi-lo) + (1+d)(|lo|+|hi|) 4 2^-24 + 8 2^-150 "
+    "of its bin where 1+d bounds the FINAL running share dem of the loop; exposed_centre_within_half — an excursion below 1/2 "
+    "vanishes in the export rounding; binF_exposed_centre_inside — both combined per bin; spreadF_radius_below_half — epsF < 1/2 "
+    "when d <= 2^-14, bins <= 2048 wide, limits <= 2^18. NOT proved: the bound on the final share in terms of the number of cells "
+    "(spreadF_enclosure_full_statement, conjectured slack (4n+4)2^-24/(1-(4n+4)2^-24)); the lifting of the per-bin theorem through "
+    "the scatter loop of spreadCoordX/Y to every cell (done over Rat only: ub_every_cell_inside); the clamp of unassigned cells is "
+    "modelled and compared but has no binary32 theorem (it is comparison-only, hence exact)",
+    "PROPOSED KNOWN FINDING KF-C06-3 (not yet in known_findings.json, therefore counted, not raised): the excursion is not bounded by "
+    "1/2 on the whole domain. spreadF_can_exceed_half (kernel-evaluated) and the real code agree: 10 cells of demands 16776988, "
+    "1 x6, 2 x3 (targets increasing) in the bin [0, 4000000] put the last cell at 4000002.5 (exported centre 4000003 > hi + 1/2); 301 "
+    "cells (16776400, 1 x200, 2 x100) in [0, 1048576] reach 1048600.875. Mechanism: total demand just below a power of two, one cell "
+    "holding almost all of it, then cells whose half share is just above half an ulp of dem — every `dem +=` rounds up. The stream "
+    "counts such results (spreadf_round_outside_area_by_more_than_half = known_finding_candidate:KF-C06-3; 321 of 3000 spreadCoord "
+    "calls at seed 1, all in the drift/witness families). Whether Circuit::placeGlobal can build such a bin (a macro of area ~2^24 "
+    "next to cells of area 1-2 in one bin at the area's edge) was not established; the end-to-end oracle would report it as a "
+    "violation. Candidate repair: clamp coords[c] (or dem) to [minCoord, maxCoord] in spreadCells",
+    "the Rat theorems (spread_inside, spread_coord_inside, ub_centre_inside, ub_every_cell_inside) remain as the exact-arithmetic "
+    "reading of the mechanism; the older approx stream still checks |float - rat| <= 2^-18(|lo|+|hi|+1) (bins of <= 29 cells) and "
+    "containment of the float result in the closed bin on its own (small-demand) generator, where no excursion occurs",
     "no exposed/returned coordinate is non-finite or overflowed: finiteness of the conjugate-gradient iterates and of the "
     "float->int conversion is NOT proved; monitored by the oracle at every callback and after return on every generated "
     "circuit (sentinel INT_MIN/INT_MAX and |v| <= 2^30)",
@@ -44,7 +64,9 @@ PARTIAL = [
     "bounding box and are well formed; the grid correspondence replays computeRows through the shared Freespace model",
 ]
 ASSUMPTIONS = [
-    "float arithmetic of spreadCells/blendPlacement modelled in Rat (see partial clauses)",
+    "float arithmetic of blendPlacement modelled in Rat; spreadCells/spreadCoordX/Y both in Rat (Model/Spread) and bit-exact "
+    "binary32 (Model/SpreadF, rounding function F64.f32' = Legalize.f32: hand-written round-to-nearest-even with gradual underflow, "
+    "no overflow to infinity, signed zeros not distinguished; itself tied to the FPU only through the exact streams)",
     "std::sort on pair<float,int> modelled by List.mergeSort with the lexicographic order (keys are pairwise distinct, so the "
     "sorted list is unique); NaN targets excluded (finite CG iterates are monitored, not proved)",
     "numerical knobs of the generator (end-to-end stream): CG tolerance in [1e-6,1], initial approximation and cutoff distances "
@@ -65,7 +87,10 @@ ASSUMPTIONS = [
     "of zero width or zero height (at least one movable cell of positive area remains); coordinates within a few hundred units",
     "C++ int arithmetic modelled as unbounded Int (bin limits, margins)",
 ]
-LEVEL_TEXT = ("Lean 4 theorems over an executable Rat model of spreadCells / spreadCoordX/Y / the density grid built from the clipped "
+LEVEL_TEXT = ("Lean 4 theorems over an executable binary32-exact model of spreadCells / spreadCoordX/Y (enclosure of every coordinate "
+              "given the final running share, kernel-evaluated witnesses that a float coordinate leaves its bin — by more than 1/2 for "
+              "adversarial demands —, absorption of sub-1/2 excursions by the export rounding; exact float-for-float differential stream) "
+              "and over an executable Rat model of spreadCells / spreadCoordX/Y / the density grid built from the clipped "
               "rows / blendPlacement / exportPlacement (containment of every positive-demand cell strictly inside its bin, bins inside "
               "the rows' bounding box, returned placement = rounded blend, and the observable three-roundings bound); model tied to "
               "the C++ by a differential stream on spreadCoordX/Y, simpleCoordX/Y and DensityGrid::fromIspdCircuit; the end-to-end "
@@ -76,7 +101,8 @@ LEVEL_TEXT = ("Lean 4 theorems over an executable Rat model of spreadCells / spr
               "callback bounds, exit at the first iteration without wirelength, the recurrences and their closed forms, soundness of "
               "the KF-C06-1 numeric box, legacy witness on the pre-fix stop test); tied to the code per end-to-end case by the "
               "callback sequence (hook-free) and, with hook H5, by a bit-for-bit replay of the logged per-iteration floats")
-LEVEL_NOTE = ("Partial w.r.t. single precision: proofs are over Rat; the loop theorems are conditional on the oracle trace (they "
+LEVEL_NOTE = ("Partial w.r.t. single precision: the spreading step has a binary32 model with a conditional enclosure (share bound not "
+              "proved), everything else is over Rat; the loop theorems are conditional on the oracle trace (they "
               "do not bound the float solves). Trusted: Lean kernel, the hand-written model's tie to the code "
               "(differential, bounded by the generator), the float error bound derivation in harness/h_C06.cpp.")
 TECHNIQUE = "Lean 4 proof over a Rat model + model/implementation correspondence stream + end-to-end direct oracle"
